@@ -2,7 +2,6 @@ package main
 
 import "strings"
 
-func runGrounds(w *World, o *Options) []*Obligation { return nil }
 func runLemmas(w *World, o *Options, workDir string) []*Obligation { return nil }
 func tryReplay(w *World, o *Options, ob *Obligation, base string, b *strings.Builder) (string, bool) {
 	return "", false
